@@ -133,6 +133,9 @@ partial def nloop (m : NModel) (h : IO.FS.Stream) (d : NDrv m.Ïƒ) : IO (NDrv m.Ï
       if ok.isEmpty then
         let shown := match nexts with | x :: _ => x.2 | [] => ""
         IO.println s!"MISMATCH case={d.caseId} step={d.stepNo} op=[{d.lastOp}] model=[{shown}] impl=[{got}] alternatives={nexts.length}"
+        if (â† IO.getEnv "ORACLE_DEBUG").isSome then
+          let distinct := nexts.foldl (fun (acc : List String) x => if acc.contains x.2 then acc else acc ++ [x.2]) []
+          for a in distinct do IO.println s!"  ALT [{a}]"
         nloop m h { d with failed := true, mism := d.mism + 1 }
       else nloop m h { d with cands := ok, expected := none, maxCands := max d.maxCands ok.length }
     | none => nloop m h d
